@@ -29,6 +29,18 @@ package transaction
 
 // The result holds, for every requested key: the buffered value if the buffer has a live write for it; nothing if the
 // buffer has a deletion for it (whatever the snapshot holds); otherwise what the snapshot has. Nothing else is in it.
+// A transaction's BatchGet ALWAYS reads through its write buffer - also when the buffer is not "dirty" yet (writes of a still
+// open staging level are buffered but not published): live buffered values win, buffered deletions hide the snapshot's
+// values, everything else is the snapshot's answer.
+//@ func NewBufferBatchGetter
+//@   prop C07
+//@   ensures result != nil && result.buffer == buffer && result.snapshot == snapshot
+//@ func (*KVTxn) BatchGet
+//@   prop C07
+//@   bytes: key
+//@   may-panic
+//@   ensures live: result1 == nil ==> forall k []byte :: inKeys(keys, k) && gHas(txn.us.memBuffer, k) && gVal(txn.us.memBuffer, k) != "" ==> inDom(result0, string(k)) && result0[string(k)].Value == gVal(txn.us.memBuffer, k)
+//@   ensures deleted: result1 == nil ==> forall k []byte :: inKeys(keys, k) && gHas(txn.us.memBuffer, k) && gVal(txn.us.memBuffer, k) == "" ==> !inDom(result0, string(k))
 //@ func (*BufferBatchGetter) BatchGet
 //@   prop C07
 //@   bytes: key
@@ -234,10 +246,13 @@ package transaction
 // Commit (unless async commit), cleanup and pessimistic lock act on the primary batch first and alone; everything else is
 // touched only after that succeeded (then the primary batch is dropped from the list).
 //@ func (*twoPhaseCommitter) doActionOnGroupMutations
-//@   prop C04
+//@   prop C04 C06
 //@   may-panic
 //@   opaque-callee doActionOnBatches checkOnePCFallBack appendBatchMutationsBySize spawnWithStorePool NewBackofferWithVars tiKVTxnRegionsNumHistogram getDetail keySize keyValueSize
 //@   at call(primaryBatch) assert first: firstIsPrimary && ((actionIsCommit && !c.isAsyncCommit()) || actionIsCleanup || actionIsPessimisticLock)
+// (C06:) the secondaries of a committed transaction are committed in the background under the STORE's context - the caller's
+// is usually cancelled right after Commit returns, and a cancelled commit of secondaries leaves their locks behind.
+//@   at call(NewBackofferWithVars) assert detached: arg_ctx == storeCtxOf(c.store)
 //@   at call(forgetPrimary) assert done: err == nil && firstIsPrimary
 //@   at call(allBatches#5) assert rest: (firstIsPrimary && ((actionIsCommit && !c.isAsyncCommit()) || actionIsCleanup || actionIsPessimisticLock)) ==> err == nil
 
@@ -455,6 +470,18 @@ package transaction
 //@   ensures marked: err != nil && (old(handler.committer.useAsyncCommit) > 0 || old(handler.committer.useOnePC) > 0) && old(handler.sender.rpcError) != nil && old(handler.committer.prewriteCancelled) == 0 ==> handler.committer.mu.undeterminedErr == old(handler.sender.rpcError)
 //@   ensures untouched: err == nil ==> handler.committer.mu.undeterminedErr == old(handler.committer.mu.undeterminedErr)
 
+// The RPC error an attempt left on the sender (the request may have reached the store) stays there until the batch is known
+// to have SUCCEEDED: a later answer that is a region error, a key error or a lock does not say the earlier attempt was not
+// executed, so none of those paths may start from a cleared mark (drop would then answer a definite failure).
+//@ func (*prewrite1BatchReqHandler) sendReqAndCheck
+//@   prop C03
+//@   may-panic
+//@   opaque-callee beforeSend handleRegionErr handleSingleBatchSucceed extractKeyErrs resolveLocks
+//@   at call(handleRegionErr) assert sticky: handler.sender.rpcError == handler.sender.rpcErrAtReturn
+//@   at call(extractKeyErrs) assert sticky: handler.sender.rpcError == handler.sender.rpcErrAtReturn
+//@   at call(handleSingleBatchSucceed) assert sticky: handler.sender.rpcError == handler.sender.rpcErrAtReturn
+//@   at return assert kept: result1 != nil && defined(resp) && !defined(regionErr) ==> handler.sender.rpcError == handler.sender.rpcErrAtReturn
+
 // A store that answers the prewrite of such a transaction with "undetermined result" makes the batch fail with exactly
 // the undetermined-result error, without retry.
 //@ func (*prewrite1BatchReqHandler) handleRegionErr
@@ -502,7 +529,7 @@ package transaction
 //@ func (*twoPhaseCommitter) execute
 //@   prop C04 C03
 //@   may-panic
-//@   at call(GetTotalSleep#1) assert determinate: err != nil ==> c.mu.undeterminedErr == nil
+//@   at call(GetTotalSleep#1) assert determinate: err != nil ==> c.mu.undeterminedErr == nil && undeterminedErr == nil
 //@   at call(prewriteMutations) assert calculated: old(c.useAsyncCommit == 0 && c.useOnePC == 0) && (c.useAsyncCommit > 0 || c.useOnePC > 0) ==> c.maxTSCalc
 //@   opaque-callee cleanup prewriteMutations checkSchemaOnAssertionFail stripNoNeedCommitKeys GetTimestampForCommit checkSchemaValid fillCommitTSLagDetails commitFlushedMutations checkOnePC checkAsyncCommit needLinearizability getDetail pipelinedCancel primary shouldWriteBinlog spawn NewBackofferWithVars IsExpired GetOracle GetTimestampWithRetry updateMaxCommitTs getTimestampWithRetry GetMemBuffer Prewrite Skipped GetError
 //@   at call(commitTxn) assert above: c.commitTS > c.startTS
